@@ -32,19 +32,27 @@ deriving Repr, Inhabited, DecidableEq
 /-- `check_api_compliance(sim)` -/
 def compliant (i : StartIn) : Bool := i.hasTimeRes && i.hasMaxAdv
 
+/-- `LocalProxy.init`: not compliant with the v3 signatures but claiming version ≥ 3 -/
+def rejectForcedOld (i : StartIn) : Bool :=
+  i.isLocal && !compliant i && decide (extractVersion i.reported ≥ [3])
+
+/-- `init_and_get_adapter`: `version >= [4]` -/
+def rejectTooNew (i : StartIn) : Bool := decide (extractVersion i.reported ≥ [4])
+
+/-- `init_and_get_adapter`: `explicit_version and version != explicit_version` -/
+def rejectMismatch (i : StartIn) : Bool :=
+  match i.explicit with
+  | some e => decide (extractVersion i.reported ≠ e)
+  | none => false
+
 /-- `simmanager.start` → `init_and_get_adapter` → `BaseProxy.init`; `none` = ScenarioError -/
 def start (i : StartIn) : Option Started :=
-  let version := extractVersion i.reported
-  let forcedOld := i.isLocal && !compliant i
-  -- LocalProxy.init
-  if forcedOld && decide (version ≥ [3]) then none
-  -- init_and_get_adapter
-  else if decide (version ≥ [4]) then none
-  else if (match i.explicit with | some e => decide (version ≠ e) | none => false) then none
+  if rejectForcedOld i || rejectTooNew i || rejectMismatch i then none
   else
+    let version := extractVersion i.reported
     let a1 := decide (version < [2, 2])
     let a2 := decide (version < [3])
-    some { v2ToV1 := a1, v3ToV2 := a2, timeResSent := !forcedOld,
+    some { v2ToV1 := a1, v3ToV2 := a2, timeResSent := !(i.isLocal && !compliant i),
            warnOutdated := (a1 || a2) && i.explicit.isNone }
 
 /-- the requests mosaik sends during a run -/
